@@ -217,9 +217,26 @@ def r2_same_element(run):
                       "check_signature(%s, node_name=%s): names differ" %
                       (unparse(a_item), unparse(a_nn)), cf.loc(cc))
             a_doc = arg_of(cc, 2, "origdoc")
-            run.check(a_doc is not None, "R2", qual + "::check_signature.origdoc",
-                      "document text supplied", "no document text supplied",
-                      cf.loc(cc), nontrivial=False)
+            want_doc = "self.xmlstr" if qual.endswith("_assertion") else \
+                "decr_txt"
+            run.check(a_doc is not None and unparse(a_doc) == want_doc, "R2",
+                      qual + "::check_signature.origdoc",
+                      "verified against %s, the text the assertion was parsed "
+                      "from" % want_doc,
+                      "assertion signature is verified against %s instead of "
+                      "the text it was parsed from" % unparse(a_doc),
+                      cf.loc(cc))
+    # self.xmlstr is the received text (or the decrypted text it became)
+    from ..dataflow import self_attr_assignments
+    for wf, wst, wv in self_attr_assignments(
+            m, "saml2_tophat.response.StatusResponse", "xmlstr"):
+        txt = unparse(wv)
+        ok = txt in ("''", "xmldata[:].decode('utf-8')", "xmldata[:]",
+                     "mold.xmlstr", "decr_text")
+        run.check(ok, "R2", "%s::%s" % (wf.qual, norm_text(wst)[:60]),
+                  "xmlstr is the received (or decrypted) text",
+                  "self.xmlstr is assigned from %s" % txt, wf.loc(wst),
+                  nontrivial=False)
     # check_signature forwards item/node_name/origdoc unchanged
     ck = m.func(SC + ".check_signature")
     kcfg = cfg_of(ck, m)
@@ -724,6 +741,73 @@ def check(run):
     r6_bypass_flags_closed(run)
     r7_response_path(run)
     r8_handler_inventory(run)
+    r9_package_wide_callsite_handlers(run)
+
+
+# --------------------------------------------------------------------- R9
+VERIFY_CALLEES = {
+    "check_signature", "_check_signature", "verify_signature",
+    "validate_signature", "signature_check", "_parse_response",
+    "parse_authn_request_response", "_parse_request", "parse_assertion",
+    "_assertion", "decrypt_assertions", "parse_and_check_signature",
+    "correctly_signed_response", "correctly_signed_message",
+}
+R9_ALLOWED = {
+    ("saml2_tophat.sigver.SecurityContext._check_signature", "XmlsecError"):
+        "per-certificate retry (R7)",
+    ("saml2_tophat.entity.Entity._parse_response", "SigverError"):
+        "force/record/retry (C02.R4)",
+    ("saml2_tophat.entity.Entity._parse_response", "SignatureError"):
+        "force/record/retry (C02.R4)",
+    ("saml2_tophat.response.StatusResponse.load_instance", "SignatureError"):
+        "retry with the Response node name",
+    ("saml2_tophat.request.Request._loads", "Exception"):
+        "empty message raises IncorrectlySigned (C10.R3)",
+}
+
+
+def r9_package_wide_callsite_handlers(run, rule="R9"):
+    run.rule(rule, "package-wide: a handler whose try body calls a verification "
+             "function and which may catch a signature/tool/key error must not "
+             "let processing continue (fall through, continue, return a value) "
+             "outside the enumerated retry idioms")
+    m = run.model
+    callees = set(VERIFY_CALLEES)
+    for fi in m.funcs.values():
+        if fi.name.startswith("correctly_signed_"):
+            callees.add(fi.name)
+        if fi.name.startswith("parse_") and fi.name.endswith(
+                ("_response", "_request", "_query")):
+            callees.add(fi.name)
+    n = k = 0
+    for q, fi in sorted(m.funcs.items()):
+        src_calls = {call_name(c) for c in ast.walk(fi.node)
+                     if isinstance(c, ast.Call)}
+        if not (src_calls & callees):
+            continue
+        n += 1
+        for hi in excflow.handlers_of(fi, m):
+            hit = set(hi.body_calls()) & callees
+            if not hit:
+                continue
+            caught = excflow.may_catch(m, hi, PROTECTED + ["IncorrectlySigned"])
+            if not caught:
+                continue
+            k += 1
+            going_on = hi.dispositions & {"fallthrough", "continue", "break",
+                                          "return-value"}
+            if not going_on:
+                run.holds(rule, hi.key, "rejects: %s" % sorted(hi.dispositions),
+                          hi.loc(), nontrivial=False)
+                continue
+            reasons = [R9_ALLOWED.get((q, c)) for c in (hi.caught or ["<bare>"])]
+            run.check(all(reasons), rule, hi.key,
+                      "enumerated idiom: %s" % reasons[0],
+                      "a handler around %s may catch %s and carries on (%s): a "
+                      "failed verification could be treated as success" %
+                      (sorted(hit), caught, sorted(going_on)), hi.loc())
+    run.count(rule + ".functions calling a verification function", n)
+    run.floor(rule, "handlers around verification calls", k, 5)
 
 
 # --------------------------------------------------------------------- R4
